@@ -19,11 +19,13 @@ EXTENDS Integers, Sequences, FiniteSets, TLC, Json, IOUtils, SequencesExt
 UpEncs == {"", "gzip", "br", "lz4", "zst", "snz"}
 Accepts == {"", "gzip", "br", "gzip, deflate, br", "deflate", "gzip, deflate"}
 Sizes == {"zero", "tiny", "below", "at", "above", "large"}     \* against the min compress length
-Ratios == {"normal", "incompressible", "high"}                  \* high: compresses more than 10x
+Ratios == {"normal", "incompressible", "high", "extreme"}       \* high: compresses more than 10x; extreme: more than
+                                                                \* 200x (200 kB of one byte: beyond every buffer guess but the maximal ratio)
 CTypes == {"text/plain; charset=utf-8", "image/png"}
 (* server settings: min length / content type filter; "min100u": a server created with the defaults and then
-   reconfigured (Update) to min length 100; "fast": a server using a compress profile of its own (gzip 1, br 1) *)
-Settings == {"default", "min100", "filterplain", "min100u", "fast"}
+   reconfigured (Update) to min length 100; "fast": a server using a compress profile of its own (gzip 1, br 1);
+   "lvl10": a profile asking for level 10 of both codings (valid for br, beyond gzip's scale: gzip falls back to its default) *)
+Settings == {"default", "min100", "filterplain", "min100u", "fast", "lvl10"}
 Paths == {"first", "hit", "restore", "pass", "post"}
 
 AccBr(a) == a \in {"br", "gzip, deflate, br"}
@@ -75,15 +77,19 @@ ExpectedLabel(c) ==
     [] OTHER -> IF c.cacheable THEN "hit" ELSE "hitForPass"
 
 AllCases ==
-  {[upenc |-> u, accept |-> a, size |-> s, ratio |-> r, ctype |-> t, setting |-> g, cacheable |-> k, path |-> p, status |-> st] :
+  (* members: the number of gzip members the upstream's body consists of (RFC 1952 2.2: a gzip file is a series of members) *)
+  {[upenc |-> u, accept |-> a, size |-> s, ratio |-> r, ctype |-> t, setting |-> g, cacheable |-> k, path |-> p, status |-> st,
+    members |-> m] :
      u \in UpEncs, a \in Accepts, s \in Sizes, r \in Ratios, t \in CTypes, g \in Settings, k \in BOOLEAN, p \in Paths,
-     st \in {200, 404}}
+     st \in {200, 404}, m \in {1, 2}}
 
 Relevant(c) ==
   /\ (c.path \in {"pass", "post"} => ~c.cacheable)
   /\ (c.path \in {"hit", "restore"} => c.cacheable)
   /\ (c.status = 404 => c.setting = "default" /\ c.ratio = "normal")
   /\ (c.size \in {"zero", "tiny"} => c.ratio = "normal")
+  /\ (c.ratio = "extreme" => c.size = "large" /\ c.setting = "default" /\ c.status = 200)
+  /\ (c.members = 2 => c.upenc = "gzip" /\ c.setting = "default" /\ c.status = 200 /\ c.size \in {"above", "large"} /\ c.ratio = "normal")
 
 VARIABLE l
 
